@@ -247,6 +247,34 @@ def search(res, tier, seed, deep=False):
             if before != [x.tobytes() for x in (o, h, f)]:
                 report("isimip-modified-input:" + var, dict(variable=var, seed=seed), None, "ISIMIP (steps 2/4 write in place) modified the caller's series")
 
+        import ibicus.debias as D
+        # purity under non-default option values (window-free, year windows off: the path on which a series reaches a
+        # NumPy routine directly rather than through a slice copy)
+        VAR = [("CDFt", "tas", dict(delta_shift="no_shift")), ("CDFt", "tas", dict(delta_shift="additive")), ("CDFt", "hurs", dict(delta_shift="multiplicative")),
+               ("QuantileDeltaMapping", "tas", {}), ("QuantileMapping", "tas", dict(mapping_type="nonparametric")),
+               ("ISIMIP", "tas", dict(event_likelihood_adjustment=True)), ("ISIMIP", "tas", dict(nonparametric_qm=True)), ("ScaledDistributionMapping", "tas", {})]
+        for name, var, over in VAR:
+            kw = dict(running_window_mode=False); kw.update(over)
+            if name in ("CDFt", "QuantileDeltaMapping"): kw["running_window_mode_over_years_of_cm_future"] = False
+            if name == "QuantileDeltaMapping": kw["cdf_threshold"] = 1e-3
+            try:
+                d = getattr(D, name).from_variable(var, **kw)
+            except Exception:
+                continue
+            rs = np.random.RandomState(r.randint(0, 10 ** 6)); n = 400
+            mkv = (lambda sh: R.series(rs, n, "tas", sh)) if var == "tas" else (lambda sh: np.clip(60 + sh * 5 + 20 * rs.standard_normal(n), 1, 100))
+            o, h, f = mkv(0.0), mkv(1.0), mkv(2.0)
+            t = R.times(n, "1981-01-01")
+            before = [x.tobytes() for x in (o, h, f)]
+            try:
+                R.run(d, o, h, f, t, t, t, seed=9)
+            except Exception as ex:
+                report("exception:%s:%s" % (name, over), dict(debiaser=name, settings=str(over)), repr(ex)[:300], "debiaser raised"); continue
+            res.case(("purity-variant", name, str(over)))
+            after = [x.tobytes() for x in (o, h, f)]
+            if before != after:
+                report("apply_location-modified-input:%s:%s" % (name, ",".join("%s=%s" % kv for kv in over.items())), dict(debiaser=name, variable=var, settings={k: str(v) for k, v in kw.items()}, seed=seed),
+                       [i_ for i_, (u_, v_) in enumerate(zip(before, after)) if u_ != v_], "apply_location modified one of the caller's series (0 = obs, 1 = cm_hist, 2 = cm_future)")
         # the result depends on the settings as they are at the time of the call: a window setting reassigned between two
         # applies (apply re-derives the window objects) gives what a fresh instance with those settings gives
         import ibicus.debias as D, scipy.stats
